@@ -88,7 +88,11 @@ def m_eq(a, b):
             for (ka, va), (kb, vb) in zip(a.d.items(), b.d.items())
         )
     if isinstance(a, M) or isinstance(b, M):
-        return False
+        # an ordered dict compared with a plain dict: ordinary dict equality, order does not matter
+        m_, p_ = (a, b) if isinstance(a, M) else (b, a)
+        if not isinstance(p_, dict):
+            return False
+        return len(m_.d) == len(p_) and all(k_ in p_ and m_eq(v_, p_[k_]) for k_, v_ in m_.d.items())
     if isinstance(a, list) and isinstance(b, list):
         return len(a) == len(b) and all(m_eq(x, y) for x, y in zip(a, b))
     return a == b
@@ -128,7 +132,7 @@ class C17(core.Check):
     stubbed_components = ["none (the default factory used for fault injection is harness code)"]
 
     def setup(self):
-        core.import_repo()
+        self.mf = core.import_repo()
         from mappyfile.ordereddict import CaseInsensitiveOrderedDict
 
         self.CI = CaseInsensitiveOrderedDict
@@ -226,6 +230,39 @@ class C17(core.Check):
             return ["T", [self.norm_model(v, depth + 1) for v in x]]
         return core.freeze(x)
 
+    def population_from_loads(self, text):
+        """[(real dict, model)] for the root loads() returns and for every dict nested in it. The model is what the
+        statement says such a dictionary is: a case-insensitive dict whose factory is the Mapfile dict class."""
+        root = self.mf.loads(text)
+        out = []
+
+        def to_model(x):
+            if isinstance(x, dict):
+                m = M("ci")
+                for k_, v_ in x.items():
+                    m.d[k_] = to_model(v_)
+                return m
+            if isinstance(x, list):
+                return [to_model(v_) for v_ in x]
+            if isinstance(x, tuple):
+                return tuple(to_model(v_) for v_ in x)
+            return x
+
+        model_root = to_model(root)
+
+        def walk(r_, m_):
+            if isinstance(r_, dict) and isinstance(m_, M):
+                if len(out) < 7:
+                    out.append((r_, m_))
+                for k_ in list(r_.keys()):
+                    walk(r_.get(k_), m_.d.get(k_))
+            elif isinstance(r_, list) and isinstance(m_, list):
+                for a_, b_ in zip(r_, m_):
+                    walk(a_, b_)
+
+        walk(root, model_root)
+        return out
+
     # ------------------------------------------------------------ generate
     OPS = [
         ("getitem", 12), ("setitem", 14), ("delitem", 6), ("contains", 5), ("get", 6),
@@ -254,6 +291,15 @@ class C17(core.Check):
             weights["setitem"] = 1
         names = [a for a, w in weights.items() if w > 0]
         ws = [weights[a] for a in names]
+        init_text = None
+        if k.random() < 0.03:  # (each costs a Parser construction: ~150 ms)
+            # the dictionaries loads() itself hands out (root and every nested block), not ones built by the harness
+            init_text = k.choice([
+                'MAP\n NAME "x"\n WEB\n  METADATA\n   "wms_title" "t"\n   "Other" "v"\n  END\n END\n LAYER\n  NAME "l"\n  TYPE POINT\n  VALIDATION\n   "q" "."\n  END\n END\nEND',
+                'METADATA\n "wms_title" "x"\n "b" "c"\nEND',
+                'LAYER\n NAME "l"\n TYPE POINT\n CONNECTIONOPTIONS\n  "a" "b"\n END\n CLASS\n  STYLE\n   COLOR 1 2 3\n  END\n END\nEND',
+                'SCALETOKEN\n NAME "%pri%"\n VALUES\n  "0" "a"\n  "1000" "b"\n END\nEND',
+            ])
         init = ["d", k.choice(["none", "ci", "ci", "flaky"]),
                 [[r.choice(keys), self.gen_value(r, 1)] for _ in range(k.choice([0, 0, 1, 2, 3]))]]
         ops = []
@@ -299,7 +345,10 @@ class C17(core.Check):
                 if restarts < 1:
                     restarts += 1
                     ops.append([name, who, r.choice([1, 7, 12345])])
-        return {"prop": "C17", "seed": seed, "init": init, "ops": ops}
+        case = {"prop": "C17", "seed": seed, "init": init, "ops": ops}
+        if init_text:
+            case["init_text"] = init_text
+        return case
 
     # ------------------------------------------------------------ exhaustive blocks (short sequences)
     EXH_KEYS = ["name", "NAME", "layers", "Layers", "x", "X"]
@@ -368,6 +417,8 @@ class C17(core.Check):
         CI = self.CI
         factories.FAULT["raise"] = False
         pop = [(self.build_real(case["init"]), self.build_model(case["init"]))]
+        if case.get("init_text"):
+            pop = self.population_from_loads(case["init_text"])
         stats = {}
         cover = set()
         kinds = set()
